@@ -311,11 +311,16 @@ class TU:
                             form, sp = "q", v[1:-1]
                         elif v.startswith("<") and v.endswith(">"):
                             # the tokens between < and > are macro-expanded before the name is formed
-                            def _rescan(mo, depth=[0]):
-                                nm = mo.group(0)
-                                val = self.macros.get(nm)
-                                return nm if val is None or not re.fullmatch(r"[\w./+-]*", val) else val
-                            form, sp = "a", re.sub(r"[A-Za-z_]\w*", _rescan, v[1:-1])
+                            # (replacements are rescanned in turn; a macro is not replaced inside its own expansion)
+                            def _expand(text, hidden):
+                                def _one(mo):
+                                    nm = mo.group(0)
+                                    val = self.macros.get(nm)
+                                    if val is None or nm in hidden or not re.fullmatch(r"[\w./+-]*", val):
+                                        return nm
+                                    return _expand(val, hidden | {nm})
+                                return re.sub(r"[A-Za-z_]\w*", _one, text)
+                            form, sp = "a", _expand(v[1:-1], frozenset())
                         else:
                             raise InvalidWorld(f"computed include value {v!r}")
                     p = self.resolve(sp, form, curdir)
@@ -438,7 +443,12 @@ class Model:
                 m = re.match(r"\s*#\s*([A-Za-z_]\w*)?", text)
                 name = m.group(1) if m else None
                 if name is None:
-                    continue  # null directive
+                    rest = text.strip()[1:].split() if text.lstrip().startswith("#") else []
+                    if not rest:
+                        continue  # null directive
+                    # '#' followed by something that is no identifier ("#!generated", "#@x", a line marker
+                    # '# 33 "f.c"'): no directive the SUT honours
+                    name = text.strip()
                 if name in KNOWN_DIRECTIVES or name in EXEMPT_DIRECTIVES:
                     continue
                 out.append((rel, i + 1, name))
